@@ -12,7 +12,8 @@ export VERIF_EVIDENCE_DIR=/tmp/mev.$name.$$; mkdir -p $VERIF_EVIDENCE_DIR
 for P in "$@"; do
   tier=${MUT_TIER:-quick}
   out=$(VERIF_REPO="$W" /verif/run.sh "$P" "$tier" 2>&1); rc=$?
-  line=$(echo "$out" | grep -E "^(VIOLATION|BROKEN-CHECK|KNOWN-FINDING)" | head -1)
+  line=$(echo "$out" | grep -E "^VIOLATION" | head -1)
+  [ -z "$line" ] && line=$(echo "$out" | grep -E "^(BROKEN-CHECK|KNOWN-FINDING)" | head -1)
   what=$(echo "$out" | grep -E "^  what:" | head -1 | cut -c1-200)
   echo "MUT $name $P exit=$rc $line $what"
 done
